@@ -18,7 +18,7 @@ mkdir -p $D
 cp $S/patch.diff $D/patch.diff; cp $S/demo.py $D/demo.py; cp $S/notes.md $D/notes.md 2>/dev/null
 HEAD=$(git -C $W log --format=%h -1)
 cat > $D/meta.json <<EOT
-{"name": "$NAME", "property": "$ID", "wave": 2, "origin": "independent sub-agent given only the property text, the list of first-wave ideas to avoid, and a scratch worktree",
+{"name": "$NAME", "property": "$ID", "wave": ${WAVE:-3}, "origin": "independent sub-agent given only the property text, the list of earlier-wave ideas to avoid, and a scratch worktree",
  "written_against_repo_commit": "$HEAD",
  "confirmed": {"pinned_tests_with_change": "$TESTS", "demo_exit_clean_tree": $CLEAN, "demo_exit_with_change": $MUT,
                "how": "tools/verify_seed.sh $ID $V $NAME (the agent's scratch worktree, change reverted afterwards)"},
